@@ -16,6 +16,8 @@ use std::path::Path;
 use std::process::Command;
 use std::time::Duration;
 
+mod consumer;
+
 const PROFDATA_STUB: &str = r#"#!/bin/sh
 # recording stand-in for llvm-profdata: logs argv and, for every path listed on stdin, the id
 # stored in the file it names
@@ -382,12 +384,19 @@ pub fn run(rep: &mut Report) {
     let mut rng = Rng::new(rep.seed ^ 0xC20);
     llvm_half(rep, &mut rng);
     gcc_half(rep, &mut rng);
+    consumer::run(rep);
 }
 
 pub fn replay(rep: &mut Report, _case: &serde_json::Value) {
+    if _case["op"].as_str().map(|o| o.starts_with("c20.cons.")).unwrap_or(false) {
+        return consumer::replay(rep, _case);
+    }
     rep.notes.push("replays: re-run ./check C20 with the same seed; programs/layouts are recorded in the replay file".into());
 }
 
 fn main() {
+    if consumer::child_main() {
+        return;
+    }
     corrlib::run_main("C20", run, replay);
 }
